@@ -31,6 +31,7 @@ pub proof fn lemma_bv_word_chunk(v: &Bv, k: int, x: u64)
     assert(k < v.words().len());
     assert forall|j: u64| j < 64 implies wbit(x, j as nat) == wbit(v.words()[k], j as nat) by {
         let b = k * 64 + j;
+        lemma_divmod_at(k, j as int);
         assert(b / 64 == k && b % 64 == j as int);
         assert(v.sbit(b) == wbit(v.words()[k], j as nat));
         if b >= v.slen() { assert(!v.sbit(b)); }
